@@ -104,7 +104,8 @@ def report(rep, prop, po, R, broken, only=None):
         "correspondence_mismatches": len(mm), "monitor_failures": len(R["mon_fail"]),
         "timing_s": {"generation+impl": R["t_gen"], "model": R["t_model"]},
         "partial": ("PROVED (Coq, all states / inputs / outcomes of one replica): just_ok invariant incl. crashes and restarts; "
-                    "timer_always_enabled (exact effect list); reachable_timer_enabled; catch_up. "
+                    "timer_always_enabled (exact effect list); reachable_timer_enabled; catch_up; the invariant and the enabled timer in every "
+                    "reachable state of the cluster model Model/Sim.v under any schedule (C06_cluster_invariant, C06_cluster_timer_always_enabled). "
                     "NOT PROVED: the global statement C06_full (Definition in Properties/C06.v over Model/Sim.v: every up honest "
                     "node commits within rounds_bound k = 9 + 2k synchronous rounds after any admissible prefix) — it is monitored "
                     "on the implementation's runs and, through the correspondence, on the model's; sync_rounds_align / "
